@@ -50,4 +50,37 @@ theorem LossLessSwap_eq_model (input : Int) (ratio : Dec) (si so : Nat) :
       Irismod.Token.swapNum, Irismod.Token.swapDen, Irismod.Token.swapOutput, Irismod.Token.swapTaken]
     exact do_match _ _
 
+
+/-- the rejecting guards of the ERC20 swap handlers and of the EVM hook around `LossLessSwap`, as source text in source order -/
+theorem token_guards_pinned : Irismod.Gen.PureToken.guards =
+    ["erc20Hook.PostTxProcessing: eventArgs, err := erc20.Unpack(event.Name, log.Data); err != nil",
+     "erc20Hook.PostTxProcessing: len(eventArgs) != 3",
+     "erc20Hook.PostTxProcessing: !ok || len(to) == 0",
+     "erc20Hook.PostTxProcessing: receiver, err := sdk.AccAddressFromBech32(to); err != nil",
+     "erc20Hook.PostTxProcessing: !ok || amount.Cmp(big.NewInt(0)) == 0",
+     "erc20Hook.PostTxProcessing: err := hook.k.bankKeeper.MintCoins(ctx, types.ModuleName, mintedCoins); err != nil",
+     "erc20Hook.PostTxProcessing: err := hook.k.bankKeeper.SendCoinsFromModuleToAccount(ctx, types.ModuleName, receiver, mintedCoins); err != nil",
+     "Keeper.SwapFromERC20: token, err := k.getTokenByMinUnit(ctx, wantedAmount.Denom); err != nil",
+     "Keeper.SwapFromERC20: len(token.Contract) == 0",
+     "Keeper.SwapFromERC20: err := k.BurnERC20(ctx, contract, sender, wantedAmount.Amount.BigInt()); err != nil",
+     "Keeper.SwapFromERC20: err := k.bankKeeper.MintCoins(ctx, types.ModuleName, mintedCoins); err != nil",
+     "Keeper.SwapFromERC20: err := k.bankKeeper.SendCoinsFromModuleToAccount(ctx, types.ModuleName, receiver, mintedCoins); err != nil",
+     "Keeper.SwapToERC20: !k.evmKeeper.SupportedKey(receiverAcc.GetPubKey())",
+     "Keeper.SwapToERC20: token, err := k.getTokenByMinUnit(ctx, amount.Denom); err != nil",
+     "Keeper.SwapToERC20: len(token.Contract) == 0",
+     "Keeper.SwapToERC20: err := k.bankKeeper.SendCoinsFromAccountToModule(ctx, sender, types.ModuleName, amt); err != nil",
+     "Keeper.SwapToERC20: err := k.bankKeeper.BurnCoins(ctx, types.ModuleName, amt); err != nil",
+     "Keeper.SwapToERC20: err := k.MintERC20(ctx, contract, receiver, amount.Amount.BigInt()); err != nil",
+     "msgServer.SwapFromERC20: sender, err := sdk.AccAddressFromBech32(msg.Sender); err != nil",
+     "msgServer.SwapFromERC20: receiver, err := sdk.AccAddressFromBech32(msg.Receiver); err != nil",
+     "msgServer.SwapFromERC20: err := m.k.SwapFromERC20(ctx, common.BytesToAddress(sender.Bytes()), receiver, msg.WantedAmount); err != nil",
+     "msgServer.SwapToERC20: sender, err := sdk.AccAddressFromBech32(msg.Sender); err != nil",
+     "msgServer.SwapToERC20: err := m.k.SwapToERC20(ctx, sender, receiver, msg.Amount); err != nil"] := rfl
+
+/-- their effect statements (calls whose result is dropped, field writes) with nesting depth, in source order -/
+theorem token_effects_pinned : Irismod.Gen.PureToken.effects =
+    ["LossLessSwap: d0 output.Quo(output, den)",
+     "LossLessSwap: d0 taken.Add(taken, new(big.Int).Sub(num, big.NewInt(1)))",
+     "LossLessSwap: d0 taken.Quo(taken, num)"] := rfl
+
 end Irismod.Props.Tie
